@@ -667,13 +667,13 @@ def modinit_replay(method="RADAU"):
     return None, f"probe modinit {method}", "\n".join(log)
 
 
-def radau_nan_replay():
+def radau_nan_replay(method="RADAU"):
     """Native: RADAU with a right-hand side that turns NaN after a few accepted steps must return (no hang) with a failure
     status and must not hand out a non-finite state."""
     log = []
     for nan_at in (40, 80, 200):
         try:
-            d = probe(["radaunan", nan_at], timeout=30)
+            d = probe(["radaunan", nan_at, method], timeout=30)
         except subprocess.TimeoutExpired:
             return True, f"probe radaunan {nan_at}   (real RADAU, y' = cos t + y/2, NaN from evaluation {nan_at} on)", f"no return within 30 s: the solver hangs once the right-hand side returns NaN"
         except Exception as e:
